@@ -353,3 +353,42 @@ def run(ctx):
                 if A.access_path(term) == ("P1", "data"):
                     ok2 = A.dominates(wb, ab[0], b)
             ctx.ob("R-C03.5", wb, "applies-the-journaled-items", ok2, "the apply loop consumes self.data after it was journaled" if ok2 else "the apply loop does not iterate the journaled self.data (after the append)")
+
+    # ---- R-C03.8 write-ahead rule: when lsm-tree turns a keyspace's memtables into (fsynced) tables, the journal records of
+    # the items in those memtables must not still sit in the journal writer's user-space buffer — otherwise a crash leaves
+    # ONE keyspace's part of a batch on disk (in the table) and nothing of the rest (the journal never got the record).
+    # (a) process crash: the buffer was flushed under the journal lock before the call (Writer::persist, or Writer::pos
+    #     whose stream_position flushes the BufWriter) — required;
+    # (b) power loss: the journal was SYNCED before the call — not done anywhere on the pinned tree: known finding.
+    sites = (("ingestion::Ingestion::<'a>::finish", lambda n: n.startswith("lsm_tree::") and n.endswith("::finish")),
+             ("worker_pool::worker_tick", lambda n: n == "flush::worker::run"))
+    for fid, is_effect in sites:
+        fn = ctx.fn(fid, "R-C03.8")
+        if not fn:
+            continue
+        og = ctx.og(fn)
+        eff = [b for b, t in fn.calls() if is_effect(A.cname(t))]
+        if not eff:
+            ctx.ob("R-C03.8", fn, "flush-site-present", False, "%s no longer turns memtables into tables" % fid, kind="anchor")
+            continue
+        flushers = [b for b, t in fn.calls() if A.cname(t) in (R.PERSIST, R.WRITER + "::pos", R.JOURNAL_PERSIST)]
+        syncers = []
+        for b, t in fn.calls():
+            if A.cname(t) in (R.PERSIST, R.JOURNAL_PERSIST) and len(t["args"]) > 1:
+                if A.variants_in(og.of_operand(t["args"][1]), "PersistMode") & {"SyncData", "SyncAll"} and not (A.variants_in(og.of_operand(t["args"][1]), "PersistMode") & {"Buffer"}):
+                    syncers.append(b)
+        errs = list(A.error_starts(fn))
+
+        def before_every(eff_b, through):
+            # every path entry -> effect passes one of `through`
+            return bool(through) and eff_b not in A.reach(fn, [0], avoid=list(through))
+        ok_a = all(before_every(e, flushers) for e in eff)
+        ok_b = all(before_every(e, syncers) for e in eff)
+        ctx.ob("R-C03.8", fn, "journal-buffer-flushed-before-memtables-become-tables", ok_a,
+               "the journal writer's buffer is written out (persist / pos) before %s makes tables out of memtables" % fid.rsplit("::", 1)[-1] if ok_a
+               else "memtables are turned into durable tables while their journal records may still sit in the journal writer's buffer: after a process crash one keyspace has its part of a batch (from the table) and the others have nothing (manual_journal_persist, or a batch committed without durability)",
+               fn.loc(eff[0]))
+        ctx.ob("R-C03.8", fn, "journal-synced-before-memtables-become-tables", ok_b,
+               "the journal is synced before tables are made durable" if ok_b
+               else "tables are fsynced while the journal is only flushed to the OS: after a power loss the journal can end before a batch of which one keyspace's part is already in a table (batch recovered partially)",
+               fn.loc(eff[0]))
